@@ -38,7 +38,9 @@ def s_exact(draw):
     n = draw(st.sampled_from([56, 112]))
     df = draw(st.one_of(st.sampled_from(AP + AA), st.integers(0, 31)))
     return {"addr": draw(gen.addresses), "df": df, "n": n, "ctx_payload": draw(gen.bits(n - 29)), "hc": draw(gen.hexcase),
-            "ap_from_data": draw(gen.uint(0, 40)) if draw(gen.uint(0, 5)) == 0 else None}
+            "ap_from_data": draw(gen.uint(0, 40)) if draw(gen.uint(0, 5)) == 0 else None,
+            # the parity of the data part as a value of its own: all ones, all zeros, one bit, the address itself (AP field all zeros), its complement (all ones)
+            "parity_target": draw(st.sampled_from(["FFFFFF", "000000", "800000", "000001", "FFFFFE", "7FFFFF", "addr", "~addr"])) if draw(gen.uint(0, 5)) == 0 else None}
 
 
 def chk_exact(case, note):
@@ -49,7 +51,17 @@ def chk_exact(case, note):
         k = case["ap_from_data"] % (len(probe) - 11)
         addr = int(probe[-6:], 16) ^ int(probe[k:k + 6], 16)
         note.cls("AP-field-repeats-data-digits")
-    msg = build(addr, df, case["n"], case["ctx_payload"], case["hc"])
+    payload = case["ctx_payload"]
+    if case.get("parity_target") and df in AP and case.get("ap_from_data") is None:
+        t = case["parity_target"]
+        t = addr if t == "addr" else (addr ^ 0xFFFFFF if t == "~addr" else int(t, 16))
+        nb = case["n"] - 29
+        hi = ((df << nb) | (payload & ((1 << nb) - 1))) & ~0xFFFFFF
+        x = frames.affine_solve(lambda x: crc24.parity(hi | x, case["n"] - 24) ^ t, 24)
+        if x is not None:
+            payload = (payload & ~0xFFFFFF) | x
+            note.cls("data-parity-" + case["parity_target"])
+    msg = build(addr, df, case["n"], payload, case["hc"])
     r = call(pms.icao, msg)
     note.cls("DF%d" % df, "len%d" % case["n"], case["hc"])
     if df in AP or df in AA:
